@@ -178,10 +178,146 @@ def call_controls(tmp, out):
     return ok
 
 
+def lemma_controls(tmp, out):
+    """spec/Triggers.tla: weakened trigger masks must be found insufficient, the shape of the real ones sufficient."""
+    recs = [
+        {"alg": "no_sub_cycle", "n": 3, "params": [], "lo": 0, "hi": 2, "masks": [4, 4, 4]},    # pinned tree: GROUND only
+        {"alg": "no_sub_cycle", "n": 3, "params": [], "lo": 0, "hi": 2, "masks": [7, 7, 7]},
+        {"alg": "scc", "n": 3, "params": [], "lo": 0, "hi": 2, "masks": [4, 4, 4]},
+        {"alg": "scc", "n": 3, "params": [], "lo": 0, "hi": 2, "masks": [3, 3, 3]},
+        {"alg": "affine_leq", "n": 2, "params": [1, 1, 2], "lo": 0, "hi": 2, "masks": [1, 0]},  # second variable unwatched
+        {"alg": "affine_leq", "n": 2, "params": [1, 1, 2], "lo": 0, "hi": 2, "masks": [1, 1]},
+        {"alg": "alldifferent", "n": 3, "params": [], "lo": 0, "hi": 2, "masks": [4, 4, 4]},
+        {"alg": "alldifferent", "n": 3, "params": [], "lo": 0, "hi": 2, "masks": [3, 3, 3]},
+    ]
+    for k, x in enumerate(recs):
+        x["rid"] = k
+    verdicts, *_ = validate_shards("Triggers", "Triggers.cfg", "TRIGGER_RECS", recs, tmp, shards=4)
+    bad = {rid for rid, c in verdicts if c == "C08:declared-triggers-insufficient"}
+    ok = True
+    for k, x in enumerate(recs):
+        want = k % 2 == 0
+        hit = (k in bad) == want
+        out.append({"control": f"triggers:{x['alg']}:{x['masks']}", "ok": hit, "expected": "insufficient" if want else "sufficient"})
+        ok = ok and hit
+    return ok
+
+
+def _queens(n):
+    import itertools
+    # the model's vector: the n columns followed by the two diagonal views (x_i + i, x_i - i)
+    return [list(p) + [p[i] + i for i in range(n)] + [p[i] - i for i in range(n)] for p in itertools.permutations(range(n))
+            if all(abs(p[i] - p[j]) != j - i for i in range(n) for j in range(i + 1, n))]
+
+
+def models_controls(tmp, out):
+    """spec/Models.tla: a corrupted object, a wrong count and a duplicate must be rejected (records written by hand from an
+    independent enumeration of 5-queens)."""
+    sols = _queens(5)
+    base = {"name": "queens", "args": [5], "sb": False, "mode": "solve", "ok": "ok", "sols": sols, "count": len(sols),
+            "full": True, "none": True, "opt": 0, "gid": 0, "group": []}
+    bad_obj = copy.deepcopy(base)
+    bad_obj["sols"][3][0], bad_obj["sols"][3][1] = bad_obj["sols"][3][1], bad_obj["sols"][3][0]
+    short = copy.deepcopy(base)
+    short["sols"] = short["sols"][:-1]
+    short["count"] -= 1
+    dup = copy.deepcopy(base)
+    dup["sols"][-1] = dup["sols"][0]
+    other = copy.deepcopy(base)
+    other["group"] = [{"count": 9, "full": True, "sb": False, "none": True, "opt": 0}]
+    recs = [base, bad_obj, short, dup, other]
+    for k, x in enumerate(recs):
+        x["rid"] = k
+    verdicts, *_ = validate_shards("Models", "Models.cfg", "MODEL_RUNS", recs, tmp, shards=1)
+    by = {}
+    for rid, c in verdicts:
+        by.setdefault(rid, set()).add(c)
+    want = {0: set(), 1: {"C20:invalid-object"}, 2: {"C20:count-differs-from-the-literature"}, 3: {"C20:duplicated-object"},
+            4: {"C20:count-depends-on-the-configuration"}}
+    ok = True
+    for rid, exp in want.items():
+        got = by.get(rid, set())
+        hit = (got == set()) if not exp else exp <= got
+        out.append({"control": f"models:{rid}", "ok": hit, "clauses": sorted(got), "expected": sorted(exp)})
+        ok = ok and hit
+    return ok
+
+
+def mp_controls(tmp, out):
+    """spec/MPTrace.tla: a REAL run of the parent loop (synthetic worker streams, a fixed arrival order) is accepted;
+    the same record with a dropped yield, a shortened arrival order, a wrong optimum or altered totals is rejected."""
+    import mp
+    scs, streams = mp.synthetic_scenarios("quick", base_id=0)
+    pick = []
+    for sc in scs:
+        lens = [len(w) for w in streams[sc["id"]]["streams"]]
+        if sc["mode"] == "solve" and lens == [3, 3] and not any(p["mode"] == "solve" for p in pick):
+            pick.append(sc)
+        if sc["mode"] == "min" and lens == [3, 2] and not any(p["mode"] == "min" for p in pick):
+            pick.append(sc)
+    jobs = []
+    for sc in pick:
+        st = streams[sc["id"]]["streams"]
+        order = [[w + 1, i + 1] for i in range(max(len(x) for x in st)) for w in range(len(st)) if i < len(st[w])]
+        jobs.append(dict(sc, streams=st, orders=[order]))
+    outs = run_workers("mp_worker.py", [{"kind": "replay", "scenarios": jobs}], nucs_env(jit=False), tmp, timeout=300)
+    byid = {sc["id"]: sc for sc in pick}
+    recs, names, want = [], [], []
+
+    def add(name, rec, exp):
+        rec = copy.deepcopy(rec)
+        rec["rid"] = len(recs)
+        recs.append(rec)
+        names.append(name)
+        want.append(exp)
+
+    for run in read_ndjson(outs):
+        sc = byid[run["id"]]
+        base = mp.run_record(sc, streams[sc["id"]], run, 0, "replay")
+        add(f"{sc['mode']}:real-run", base, set())
+        x = copy.deepcopy(base)
+        x["agg"][3] += 1
+        add(f"{sc['mode']}:totals-altered", x, {"C17:mp-stats-not-sums"})
+        x = copy.deepcopy(base)
+        x["gets"] = x["gets"][:-1]
+        add(f"{sc['mode']}:returns-before-the-last-marker", x, {"C11:returns-before-all-finished"})
+        if sc["mode"] == "solve":
+            x = copy.deepcopy(base)
+            x["yields"] = x["yields"][:-1]
+            add("solve:dropped-yield", x, {"C11:yields-differ-from-what-the-workers-sent"})
+            x = copy.deepcopy(base)
+            x["yields"][0] = x["yields"][1]
+            add("solve:duplicated-yield", x, {"C11:yields-differ-from-what-the-workers-sent"})
+        else:
+            x = copy.deepcopy(base)
+            x["ret"] = [x["ret"][0] + 1]
+            add("min:not-the-best", x, {"C11:not-the-best-incumbent"})
+            x = copy.deepcopy(base)
+            x["none"], x["ret"] = True, []
+            add("min:none-although-incumbent", x, {"C11:none-iff-no-incumbent"})
+    if len(recs) < 10:
+        raise Machinery(f"mp controls: expected two real runs, got {len(recs)} records")
+    verdicts, *_ = validate_shards("MPTrace", "MPTrace.cfg", "RUNS", recs, tmp, shards=1)
+    by = {}
+    for rid, c in verdicts:
+        if not c.startswith("DRIFT:"):
+            by.setdefault(rid, set()).add(c)
+    ok = True
+    for k, (name, exp) in enumerate(zip(names, want)):
+        got = by.get(k, set())
+        hit = (got == set()) if not exp else exp <= got
+        out.append({"control": f"mp:{name}", "ok": hit, "clauses": sorted(got), "expected": sorted(exp)})
+        ok = ok and hit
+    return ok
+
+
 def run(tier, seed, replay):
     out = []
     with Scratch("controls") as tmp:
         ok = call_controls(tmp, out)
+        ok = lemma_controls(tmp, out) and ok
+        ok = models_controls(tmp, out) and ok
+        ok = mp_controls(tmp, out) and ok
         ok = trace_controls(tmp, out) and ok
         ok = spec_controls(tmp, out) and ok
     (VERIF / "out").mkdir(exist_ok=True)
